@@ -8,7 +8,7 @@ VC=/tmp/verif_seedcheck_$NAME
 mkdir -p $SD && cp $WT/OUT/patch.diff $WT/OUT/demo.diff $WT/OUT/notes.md $SD/ 2>/dev/null
 [ -n "$SKIP_VERIFY" ] || /verif/tools/verify_seeded.sh $WT $SD "$DEMO" 2>&1 | tee $SD/confirm.txt
 cd $WT && git checkout -q -- . && git clean -fdq -e target -e OUT && git apply $SD/patch.diff || exit 1
-mkdir -p $VC && rsync -a --delete --exclude target --exclude target-asan --exclude target-tsan --exclude .scratch --exclude .git --exclude replays --exclude evidence /verif/ $VC/
+mkdir -p $VC && rsync -a --delete --exclude target --exclude target-asan --exclude target-tsan --exclude target-cov --exclude target-miri --exclude .scratch --exclude .git --exclude replays --exclude evidence /verif/ $VC/
 mkdir -p $VC/evidence
 [ -d $VC/target ] || cp -r /verif/target $VC/target
 : > $SD/check_quick.txt
